@@ -384,6 +384,8 @@ fn agm_elliptic_perimeter(accuracy: f64, radii: Vec2) -> f64 {
     let mut mul = 0.5;
 
     loop {
+        #[cfg(kurbo_verif)]
+        crate::verif::tick();
         let c2 = c.powi(2);
         // term = 2^(n-1) c_n^2
         let term = mul * c2;
@@ -427,6 +429,24 @@ fn agm_elliptic_perimeter(accuracy: f64, radii: Vec2) -> f64 {
     }
 
     2. * PI * x / a * sum
+}
+
+
+/// Verification hooks: access to the private perimeter helpers.
+#[cfg(kurbo_verif)]
+#[allow(missing_docs)]
+pub fn verif_kummer_elliptic_perimeter(radii: Vec2) -> f64 {
+    kummer_elliptic_perimeter(radii)
+}
+#[cfg(kurbo_verif)]
+#[allow(missing_docs)]
+pub fn verif_kummer_elliptic_perimeter_range(radii: Vec2) -> f64 {
+    kummer_elliptic_perimeter_range(radii)
+}
+#[cfg(kurbo_verif)]
+#[allow(missing_docs)]
+pub fn verif_agm_elliptic_perimeter(accuracy: f64, radii: Vec2) -> f64 {
+    agm_elliptic_perimeter(accuracy, radii)
 }
 
 #[cfg(test)]
